@@ -57,17 +57,22 @@ static void ech_cases(void) {
     vx_group();
     pm *A = NULL, *R = NULL; int rank = 0; ctx x; memset(&x, 0, sizeof x);
     /* algorithms: 0 m4ri(k) 1 pluq 2 hybrid 3 naive 4 mzd_pluq(cutoff) reconstruction 5 kernel-free rank via mzd_ple */
-    for (int alg = 0; alg < 5; alg++) {
-      int np = alg == 0 ? 11 : alg == 4 ? 4 : 1;
+    for (int alg = 0; alg < 6; alg++) {
+      int np = alg == 0 ? 11 : alg == 4 ? 4 : alg == 5 ? 9 : 1;
       if (alg == 3 && d[0] * d[1] > 200000) continue;
       for (int pi = 0; pi < np; pi++) {
-        int param = alg == 0 ? pi : alg == 4 ? CUTS[pi] : 0;
-        static const char *an[] = {"mzd_echelonize_m4ri", "mzd_echelonize_pluq", "mzd_echelonize", "mzd_echelonize_naive", "mzd_pluq"};
+        int param = alg == 0 ? pi : alg == 4 ? CUTS[pi] : alg == 5 ? pi : 0;
+        static const char *an[] = {"mzd_echelonize_m4ri", "mzd_echelonize_pluq", "mzd_echelonize", "mzd_echelonize_naive", "mzd_pluq", "mzd_top_echelonize_m4ri"};
         if (!vx_case_begin("%s|p=%d|%dx%d|kind=%d", an[alg], param, d[0], d[1], kind)) continue;
         if (!A) { A = input(d[0], d[1], kind, 10 + i); R = pm_rref(A); x.A = A; x.prof = vx_malloc(sizeof(int) * (size_t)(d[0] + d[1] + 1)); pm *t = pm_copy(A); rank = x.rank = pm_echelon(t, 0, x.prof); pm_free(t); }
         char id[96]; snprintf(id, sizeof id, "rref|%dx%d|kind=%d", d[0], d[1], kind);
         char desc[96]; snprintf(desc, sizeof desc, "%dx%d kind %d parameter %d", d[0], d[1], kind, param);
-        if (alg < 4) {
+        if (alg == 5) { /* top reduction with every k of a (non-reduced) row echelon form computed by M4RI with the automatic k */
+          mzd_t *M = mzd_from_pm(A); rci_t r = mzd_echelonize_m4ri(M, 0, 0); rci_t r2 = r; mzd_top_echelonize_m4ri(M, param); uint64_t g = mzd_dig(M);
+          if (r != rank || r2 != rank) vx_fail(an[alg], "rank-differs-from-reference", "%s: ranks %d / %d, reference %d", desc, r, r2, rank);
+          if (g != pm_hash(R)) vx_fail(an[alg], "differs-from-reference", "%s: top reduction does not give the reduced echelon form", desc);
+          record(id, H(g, (uint64_t)r)); mzd_free(M);
+        } else if (alg < 4) {
           mzd_t *M = mzd_from_pm(A); rci_t r = -1;
           switch (alg) { case 0: r = mzd_echelonize_m4ri(M, 1, param); break; case 1: r = mzd_echelonize_pluq(M, 1); break; case 2: r = mzd_echelonize(M, 1); break; case 3: r = mzd_echelonize_naive(M, 1); break; }
           if (r != rank) vx_fail(an[alg], "rank-differs-from-reference", "%s: rank %d, reference %d", desc, r, rank);
